@@ -196,15 +196,18 @@ def run(ctx: core.Ctx, only=None) -> core.Result:
                 'domain; both modes. Lean model terms are rebuilt from x_grids and FRESH model calls only. non-trivial = '
                 'active set of >= 3 indices; distinct by full case description.')
     lines, post = [], []
-    cases = [o.get('input', o) for o in only] if only is not None else [gen_case(ctx.rng) for _ in range(ctx.scale(24, 200))]
+    cases = [o.get('input', o) for o in only] if only is not None else core.corpus_cases(ctx.prop) + [gen_case(ctx.rng) for _ in range(ctx.scale(24, 200))]
     for case in cases:
         case = {k: (tuple(v) if k in ('alpha_lim', 'beta_lim') else v) for k, v in case.items()
                 if k in ('nin', 'alpha_lim', 'beta_lim', 'kpl', 'nout', 'kind', 'domains', 'norms_in', 'norms_out',
                          'nsteps', 'fseed')}
         run_case(ctx, res, case, lines, post)
-    tol_out = core.run_driver(['itp.snaptol 1'])[0]
+    t = core.try_driver(['itp.snaptol 1'], res, 'Gen.snapTol')
+    if t is None:
+        return res
+    tol_out = t[0]
     lines = [ln.replace(' TOL ', f' {tol_out} ') for ln in lines]
-    out = core.run_driver(lines)
+    out = core.try_driver(lines, res, 'Amisc.predictT') or []
     pending = None
     for pst, o in zip(post, out):
         if pst is None:
